@@ -70,9 +70,9 @@ func c11RunRound(s *c10Session, c *c11Case, want []c10Out) c11Round {
 			for atomic.LoadInt32(&goFlag) == 0 {
 				runtime.Gosched()
 			}
-			outs[i] = c10Eval(fn.f, c.Argss[i], c.J, c.Prog.Coq != "")
+			outs[i] = c10Eval(fn.f, c.Argss[i], c.J, c.Prog.modelled())
 			for k := 1; k < c.Iter; k++ {
-				o := c10Eval(fn.f, c.Argss[i], c.J, c.Prog.Coq != "")
+				o := c10Eval(fn.f, c.Argss[i], c.J, c.Prog.modelled())
 				if o.Kind != want[i].Kind || o.String() != want[i].String() {
 					outs[i] = o // keep a wrong one
 				}
@@ -232,7 +232,7 @@ func c11Observe(c *c11Case) c11Hook {
 				}
 			}
 		}
-		c10Eval(fn.f, a, c.J, c.Prog.Coq != "")
+		c10Eval(fn.f, a, c.J, c.Prog.modelled())
 		after := fn.allReps()
 		for n := range before {
 			if before[n] != after[n] {
@@ -314,6 +314,8 @@ func c11Cases(seed int64, tier string) []*c11Case {
 	pool := c10Pool()
 	var progs []*c10Prog
 	progs = append(progs, pool...)
+	progs = append(progs, c10StageModelledPool()...)
+	progs = append(progs, c10MapModelledPool()...) // map fragment: prediction "reads only" (C11_map_concurrent_equals_isolated); race detector + isolated outcomes
 	for _, p := range c10FailingPool() { // failing lazy constants; programs with a shared list ARGUMENT are out of scope (integer arguments)
 		if p.ListArg == "" && strings.HasSuffix(p.Name, "-append") {
 			progs = append(progs, p)
